@@ -73,7 +73,12 @@ where
     }
 
     writeln!(writer, "    let url = \"{action}\";")?;
-    writeln!(writer, "    helpers::send_soap_request(url, credentials, req).await")?;
+    let helper = if operation.output.is_some() {
+        "send_soap_request"
+    } else {
+        "send_one_way_soap_request"
+    };
+    writeln!(writer, "    helpers::{helper}(url, credentials, req).await")?;
     writeln!(writer, "}}")?;
 
     Ok(())
